@@ -450,6 +450,13 @@ package sse
 //@ pure onlywrites(w, a, b) = forall(c, a, b, crecv(c) == w && iscall(c, "Write"))
 //@ pure noerrors(a, b) = forall(c, a, b, cret(c, "Write", 1) == nil)
 
+// writeString has no contract of its own (one return expression, read in place by its callers); it exists to declare
+// its unsafe byte view of the string transient: the view is handed to one Write call and not kept (io.Writer's contract
+// forbids the writer to retain or modify it).
+//@ func writeString
+//@   allowunsafe the byte view of the string lives for one Write call, which by io.Writer's contract neither keeps nor modifies it
+//@   inline
+
 //@ func chunk.WriteTo
 //@   requires c != nil
 //@   ensures byte_accounting: result == written(old(ncalls()), ncalls())
